@@ -8,6 +8,7 @@ import (
 	"encoding/json"
 	"fmt"
 	"math/rand"
+	"net"
 	"os"
 	"regexp"
 	"strings"
@@ -77,6 +78,18 @@ func verifFwdBody(class, route, nonce string, rnd *rand.Rand) (body []byte, ct s
 		return mk(9*verifMiB+7, true), ct
 	}
 	return mk(100, true), ct
+}
+
+// verifFwdAbortedUpload announces a 6000-byte JSON body, sends about a third of it and closes the connection.
+func verifFwdAbortedUpload(addr, id string) {
+	c, err := net.DialTimeout("tcp", addr, 2*time.Second)
+	if err != nil {
+		return
+	}
+	defer c.Close()
+	part := `{"model":"m1","messages":[{"role":"user","content":"` + id + " " + strings.Repeat("abandoned ", 200)
+	fmt.Fprintf(c, "POST /olla/proxy/v1/chat/completions HTTP/1.1\r\nHost: %s\r\nContent-Type: application/json\r\nContent-Length: 6000\r\nX-Verif-Req: %s\r\n\r\n%s", addr, id, part)
+	time.Sleep(5 * time.Millisecond)
 }
 
 // TestVerif_Forward: TLC-enumerated request shapes, first one by one, then all at once, through both engines.
@@ -200,6 +213,11 @@ func TestVerif_Forward(t *testing.T) {
 		}
 		if len(small) > 0 {
 			for w := 0; w < waves; w++ {
+				// two clients give up in the middle of their upload (whatever buffer the inspection of THEIR body used
+				// must not turn up in somebody else's request)
+				for k := 0; k < 2; k++ {
+					verifFwdAbortedUpload(stk.addr, fmt.Sprintf("%s-abort-%d-%d", engine, w, k))
+				}
 				var wg sync.WaitGroup
 				for i := 0; i < 48; i++ {
 					sc := small[(w*48+i)%len(small)]
